@@ -6,14 +6,16 @@
       key (if any) is an owned string, [overwrite_item r (l, nd)] returns normally; the result heap is the old
       heap with the blocks [ov_released] released in that order (key, valuestring, the children as
       cJSON_Delete releases them) and the struct [(l, nd)] stored at [r] — both parts, links included.
-    * [patch_root_overwrite_sim]: [overwrite_item(object, *value); cJSON_free(value); free and clear
-      object->string] for a detached replacement root [x] whose key is owned: returns normally, the result heap
+    * [patch_root_overwrite_sim]: [overwrite_item(object, *value); cJSON_free(value); drop object->string
+      (released unless constant); clear cJSON_StringIsConst] — the code after the repair f953f57 — for a
+      detached replacement root [x] whose key may be owned, constant or absent: returns normally, the result heap
       is explicit ([patch_heap]), and it is well-formed ([WF]) for [overwrite_root r x dx csx F]: the root [r]
-      now carries the replacement's data (key cleared) and the replacement's children, under the ROOT's
+      now carries the replacement's data (key and flag cleared) and the replacement's children, under the ROOT's
       identity; the shell [x] is gone.  The ledger changes by exactly [patch_released]
       ([patch_root_overwrite_ledger]: [owned F ≡ₚ patch_released ++ owned F'], [lib_live] shrinks by exactly that
       set, [NoLeak] is kept).
-    * [patch_root_overwrite_value]: the reified new root is [PatchDefs.set_key (reify replacement) None] — what
+    * [patch_const_replacement_ok]: a replacement with a constant key: the borrowed block stays live and untouched.
+    * [patch_root_overwrite_value]: the reified new root is [PatchDefs.unnamed (reify replacement)] — what
       the value-level model PatchDefs.apply_patch computes at that point ([apply_patch_root_add_replace]: the
       root case of add / replace; [PatchDefs.finish_add _ v [] _]: the root case of copy / move), given that the
       strings the replacement's valuestring and children refer to are not released by the call (NO-ALIASING;
@@ -33,9 +35,10 @@ Local Open Scope Z_scope.
     valuestring, then the children as cJSON_Delete releases them ([CoreRefineDelete.free_order]) *)
 Definition ov_released (dr : rdata) (csr : list tree) : list positive :=
   opt_list (rd_key dr) ++ opt_list (rd_vstr dr) ++ free_order csr.
-(** … and the blocks [patch_root_overwrite] releases: those, the shell of the replacement, the replacement's key *)
+(** … and the blocks [patch_root_overwrite] releases: those, the shell of the replacement, and the replacement's
+    key UNLESS it is constant ([CoreRefineAddObject.old_key]) *)
 Definition patch_released (dr : rdata) (csr : list tree) (x : positive) (dx : rdata) : list positive :=
-  ov_released dr csr ++ [x] ++ opt_list (rd_key dx).
+  ov_released dr csr ++ [x] ++ old_key dx.
 
 (** * 0. stepping lemmas *)
 Lemma run_ld_lnk_plain g (i : positive) e : i ∈ h_live g -> h_lnk g !! i = Some e -> ld_lnk (Some i) g = Ret (e, g).
@@ -223,16 +226,69 @@ Proof.
   rewrite !app_assoc. apply Permutation_app_tail. apply Permutation_app_comm.
 Qed.
 
-Lemma is_ref_no_key d : is_ref (rd_no_key d) = is_ref d.
-Proof. reflexivity. Qed.
-Lemma owned_strs_no_key d : owned_strs (rd_no_key d) = (if is_ref d then [] else opt_list (rd_vstr d)) ++ [].
-Proof. unfold owned_strs. rewrite is_ref_no_key. cbn [rd_vstr rd_key rd_no_key opt_list]. by destruct (is_const _). Qed.
+Lemma is_ref_unnamed d : is_ref (rd_unnamed d) = is_ref d.
+Proof.
+  unfold is_ref, rd_unnamed. cbn. rewrite <- Z.land_assoc.
+  by replace (Z.land (Z.lnot c_cJSON_StringIsConst) c_cJSON_IsReference) with c_cJSON_IsReference by reflexivity.
+Qed.
+Lemma is_const_unnamed d : is_const (rd_unnamed d) = false.
+Proof.
+  unfold is_const, rd_unnamed. cbn. rewrite <- Z.land_assoc.
+  replace (Z.land (Z.lnot c_cJSON_StringIsConst) c_cJSON_StringIsConst) with 0 by reflexivity. by rewrite Z.land_0_r.
+Qed.
+Lemma owned_strs_unnamed d : owned_strs (rd_unnamed d) = (if is_ref d then [] else opt_list (rd_vstr d)) ++ [].
+Proof. unfold owned_strs. rewrite is_ref_unnamed, is_const_unnamed. reflexivity. Qed.
 Lemma old_key_owned d : key_owned d -> old_key d = opt_list (rd_key d).
 Proof. intros Hk. unfold old_key. destruct (is_const d) eqn:Hc; [|done]. by rewrite (Hk Hc). Qed.
-Lemma mk_dat_no_key d (ks : list positive) : nd_set_key (mk_dat d ks) None = mk_dat (rd_no_key d) ks.
+Lemma mk_dat_unnamed d (ks : list positive) :
+  nd_set_type (nd_set_key (mk_dat d ks) None) (clear_flag (rd_type d) c_cJSON_StringIsConst) = mk_dat (rd_unnamed d) ks.
 Proof. reflexivity. Qed.
-Lemma mk_dat_no_key_id d (ks : list positive) : rd_key d = None -> mk_dat d ks = mk_dat (rd_no_key d) ks.
-Proof. destruct d. cbn. by intros ->. Qed.
+Lemma nd_set_key_None_id nd : nd_key nd = None -> nd_set_key nd None = nd.
+Proof. destruct nd. cbn. by intros ->. Qed.
+
+(** the tail of the repaired sequence on any heap:
+    [if (o->string != NULL) { if (!(o->type & cJSON_StringIsConst)) cJSON_free(o->string); o->string = NULL; }
+     o->type &= ~cJSON_StringIsConst;] releases the key exactly when it is not constant *)
+Lemma unname_tail g (r : positive) nd :
+  r ∈ h_live g -> h_dat g !! r = Some nd ->
+  let bs := if has_flag (nd_type nd) c_cJSON_StringIsConst then [] else opt_list (nd_key nd) in
+  (forall v, v ∈ bs -> v <> r /\ v ∈ h_live g /\ h_own g !! v = Some Lib) ->
+  (k <~ get_key (Some r) ;;
+   when (negb (is_null k))
+        (t <~ get_type (Some r) ;;
+         when (negb (has_flag t c_cJSON_StringIsConst)) (k2 <~ get_key (Some r) ;; cJSON_free k2) ;;;
+         set_key (Some r) None) ;;;
+   t2 <~ get_type (Some r) ;;
+   set_type (Some r) (clear_flag t2 c_cJSON_StringIsConst)) g =
+  Ret (tt, set_dat (free_all bs g)
+             (<[r := nd_set_type (nd_set_key nd None) (clear_flag (nd_type nd) c_cJSON_StringIsConst)]> (h_dat (free_all bs g)))).
+Proof.
+  intros Hl Hd bs Hbs.
+  assert (Htail : forall g1 nd1, r ∈ h_live g1 -> h_dat g1 !! r = Some nd1 ->
+    (t2 <~ get_type (Some r) ;; set_type (Some r) (clear_flag t2 c_cJSON_StringIsConst)) g1 =
+    Ret (tt, set_dat g1 (<[r := nd_set_type nd1 (clear_flag (nd_type nd1) c_cJSON_StringIsConst)]> (h_dat g1)))).
+  { intros g1 nd1 H1 H2. rewrite (bindM_Ret _ _ _ _ _ (run_get_type_plain _ _ _ H1 H2)).
+    by rewrite (run_set_type_plain g1 r nd1 _ H1 H2). }
+  assert (Hset : forall g1, r ∈ h_live g1 -> h_dat g1 !! r = Some nd ->
+    (set_key (Some r) None ;;; t2 <~ get_type (Some r) ;; set_type (Some r) (clear_flag t2 c_cJSON_StringIsConst)) g1 =
+    Ret (tt, set_dat g1 (<[r := nd_set_type (nd_set_key nd None) (clear_flag (nd_type nd) c_cJSON_StringIsConst)]> (h_dat g1)))).
+  { intros g1 H1 H2. rewrite (bindM_Ret _ _ _ _ _ (run_set_key_plain g1 r nd None H1 H2)).
+    rewrite (Htail _ (nd_set_key nd None)); [|done|cbn; by rewrite lookup_insert].
+    rewrite set_dat_set_dat. cbn [h_dat set_dat upd_maps]. by rewrite insert_insert. }
+  rewrite (bindM_Ret _ _ _ _ _ (run_get_key_plain _ _ _ Hl Hd)).
+  destruct (nd_key nd) as [k|] eqn:Ek; cbn [is_null negb when].
+  - rewrite !bindM_assoc. rewrite (bindM_Ret _ _ _ _ _ (run_get_type_plain _ _ _ Hl Hd)). rewrite !bindM_assoc.
+    unfold bs. destruct (has_flag (nd_type nd) c_cJSON_StringIsConst) eqn:Hf; cbn [negb when opt_list].
+    + rewrite bindM_ret. by apply Hset.
+    + rewrite !bindM_assoc. rewrite (bindM_Ret _ _ _ _ _ (run_get_key_plain _ _ _ Hl Hd)). rewrite Ek.
+      destruct (Hbs k) as (Hkr & Hkl & Hko); [by left|].
+      unfold cJSON_free. rewrite (bindM_Ret _ _ _ _ _ (run_free_block g k Hkl Hko)).
+      change (free_all [k] g) with (free1 k g). apply Hset.
+      * cbn. apply elem_of_difference. split; [done|]. intros ?%elem_of_singleton. by subst.
+      * cbn. by rewrite lookup_delete_ne.
+  - rewrite bindM_ret. assert (bs = []) as -> by (unfold bs; by destruct (has_flag _ _)).
+    rewrite (nd_set_key_None_id nd Ek). by apply Htail.
+Qed.
 
 Section Patch.
   Context (h : heap) (F : forest) (r x : positive) (dr dx : rdata) (csr csx : list tree).
@@ -242,15 +298,14 @@ Section Patch.
   Hypothesis Hrx : r <> x.
   Hypothesis Hnr : is_ref dr = false.
   Hypothesis Hko : key_owned dr.
-  Hypothesis Hkx : key_owned dx.
   Notation ks := (tid <$> csx).
   Notation OV := (ov_released dr csr).
   Notation PR := (patch_released dr csr x dx).
   Notation F0 := (remove_root x (remove_root r F)).
   Notation F' := (overwrite_root r x dx csx F).
-  Notation dx' := (rd_no_key dx).
+  Notation dx' := (rd_unnamed dx).
   Notation Vx := (if is_ref dx then [] else opt_list (rd_vstr dx)).
-  Notation Kx := (opt_list (rd_key dx)).
+  Notation Kx := (old_key dx).
 
   Let ND : NoDup (ids F) := wf_nodup _ _ W.
 
@@ -289,7 +344,7 @@ Section Patch.
     rewrite (root_owned_perm r dr csr Hnr Hko).
     unfold owned. rewrite flat_cons, owned_fl_app, !flat_t_unfold, !owned_fl_cons.
     unfold owned_fn, patch_released. cbn [fn_id fn_data fst snd].
-    rewrite owned_strs_no_key, owned_strs_split, (old_key_owned dx Hkx).
+    rewrite owned_strs_unnamed, owned_strs_split.
     rewrite <- !app_assoc. cbn [app]. rewrite !app_nil_r.
     pose proof (perm_shuffle_owned r x OV Vx Kx (owned_fl (flat csx) ++ owned_fl (flat G))) as H.
     rewrite app_nil_r in H. rewrite <- !app_assoc in H. cbn [app] in H. rewrite <- !app_assoc in H. rewrite <- !app_assoc. exact H.
@@ -331,7 +386,7 @@ Section Patch.
     assert (Hx4 : x ∈ h_live g4 /\ h_own g4 !! x = Some Lib).
     { destruct (Hlib x) as [H1 H2]; [unfold patch_released; apply elem_of_app; right; by left|].
       split; [|by unfold g4; cbn; rewrite free_all_own]. unfold g4. cbn. by apply free_all_live. }
-    unfold cJSON_free. rewrite (bindM_Ret _ _ _ _ _ (run_free_block g4 x (proj1 Hx4) (proj2 Hx4))).
+    unfold cJSON_free at 1. rewrite (bindM_Ret _ _ _ _ _ (run_free_block g4 x (proj1 Hx4) (proj2 Hx4))).
     assert (E5 : free1 x g4 = put_struct r (None, None) (mk_dat dx ks) (free_all (OV ++ [x]) h)).
     { unfold g4. rewrite free1_put_struct by (intros E; by apply Hrx). by rewrite free_all_app. }
     rewrite E5. clear E5. set (g5 := put_struct r (None, None) (mk_dat dx ks) (free_all (OV ++ [x]) h)).
@@ -339,30 +394,22 @@ Section Patch.
     { intros Hin. apply HrPR. rewrite app_assoc. apply elem_of_app. by left. }
     assert (Hlr5 : r ∈ h_live g5) by (unfold g5; cbn; by apply free_all_live).
     assert (Hdr5 : h_dat g5 !! r = Some (mk_dat dx ks)) by (unfold g5; cbn; by rewrite lookup_insert).
-    (* object->string *)
-    rewrite (bindM_Ret _ _ _ _ _ (run_get_key_plain g5 r _ Hlr5 Hdr5)).
-    change (nd_key (mk_dat dx ks)) with (rd_key dx).
-    destruct (rd_key dx) as [k|] eqn:Ek; cbn [is_null negb when opt_list] in *.
-    - rewrite (bindM_Ret _ _ _ _ _ (run_get_key_plain g5 r _ Hlr5 Hdr5)).
-      change (nd_key (mk_dat dx ks)) with (rd_key dx). rewrite Ek.
-      assert (Hk5 : k ∈ h_live g5 /\ h_own g5 !! k = Some Lib).
-      { destruct (Hlib k) as [H1 H2]; [unfold patch_released; rewrite Ek; apply elem_of_app; right; right; by left|].
+    (* object->string, object->type *)
+    rewrite (unname_tail g5 r (mk_dat dx ks) Hlr5 Hdr5).
+    2:{ change (nd_type (mk_dat dx ks)) with (rd_type dx). change (nd_key (mk_dat dx ks)) with (rd_key dx).
+        rewrite has_flag_is_const. fold (old_key dx). intros v Hv.
+        destruct (Hlib v) as [H1 H2]; [unfold patch_released; apply elem_of_app; right; by right|].
+        split; [intros ->; apply HrPR; apply elem_of_app; right; by right|].
         split; [|by unfold g5; cbn; rewrite free_all_own]. unfold g5. cbn. apply free_all_live. split; [done|].
         intros Hin. apply elem_of_app in Hin as [Hin|Hin].
-        - apply (Hov_x k Hin). right. by left.
-        - apply (Hx_k k Hin). by left. }
-      assert (Hkr : k <> r).
-      { intros ->. apply HrPR. apply elem_of_app. right. right. by left. }
-      rewrite (bindM_Ret _ _ _ _ _ (run_free_block g5 k (proj1 Hk5) (proj2 Hk5))).
-      assert (E6 : free1 k g5 = put_struct r (None, None) (mk_dat dx ks) (free_all (OV ++ [x] ++ [k]) h)).
-      { unfold g5. rewrite free1_put_struct by done. by rewrite (app_assoc OV), (free_all_app (OV ++ [x])). }
-      rewrite E6. clear E6. set (g6 := put_struct r (None, None) (mk_dat dx ks) (free_all (OV ++ [x] ++ [k]) h)).
-      assert (Hlr6 : r ∈ h_live g6) by (unfold g6; cbn; by apply free_all_live).
-      assert (Hdr6 : h_dat g6 !! r = Some (mk_dat dx ks)) by (unfold g6; cbn; by rewrite lookup_insert).
-      rewrite (run_set_key_plain g6 r _ None Hlr6 Hdr6). unfold g6. rewrite put_struct_set_dat, mk_dat_no_key.
-      unfold patch_heap, patch_released. by rewrite Ek.
-    - unfold ret, patch_heap, patch_released. rewrite Ek. cbn [opt_list]. rewrite app_nil_r.
-      unfold g5. by rewrite (mk_dat_no_key_id dx ks Ek).
+        - apply (Hov_x v Hin). by right.
+        - by apply (Hx_k v Hin). }
+    change (nd_type (mk_dat dx ks)) with (rd_type dx). change (nd_key (mk_dat dx ks)) with (rd_key dx).
+    rewrite has_flag_is_const. fold (old_key dx). rewrite mk_dat_unnamed.
+    assert (HrK : r ∉ old_key dx).
+    { intros Hin. apply HrPR. apply elem_of_app. right. by right. }
+    unfold g5. rewrite (free_all_put_struct _ _ _ _ _ HrK), put_struct_set_dat.
+    unfold patch_heap, patch_released. by rewrite (app_assoc OV), (free_all_app (OV ++ [x])).
   Qed.
 
   (** ** the result heap encodes the forest with the root overwritten *)
@@ -471,7 +518,7 @@ Section Patch.
       rewrite free_all_next. by apply (wf_fresh _ _ W).
     - pose proof (wf_ref _ _ W) as H. rewrite patch_flat in H. rewrite patch_flat'.
       apply Forall_app in H as [_ H]. apply Forall_app in H as [Hx' H0]. apply Forall_cons in Hx' as [[Ha Hb] Hcx].
-      apply Forall_cons. split; [split; [exact Ha|exact Hb]|]. apply Forall_app. by split.
+      apply Forall_cons. split; [split; cbn [fn_data fn_cids fst snd] in *; [rewrite is_ref_unnamed; exact Ha|rewrite is_ref_unnamed; exact Hb]|]. apply Forall_app. by split.
   Qed.
 
   (** ** the ledger: exactly the released blocks leave it *)
@@ -505,13 +552,15 @@ Section Patch.
   Theorem patch_root_overwrite_value :
     (forall b, b ∈ opt_list (rd_vstr dx) ++ (csx ≫= str_blocks) -> b ∉ PR) ->
     find_root r F' = Some (T r dx' csx) /\
-    reify (h_str patch_heap) (T r dx' csx) = PatchDefs.set_key (reify (h_str h) (T x dx csx)) None.
+    reify (h_str patch_heap) (T r dx' csx) = PatchDefs.unnamed (reify (h_str h) (T x dx csx)).
   Proof.
     intros Hna. split.
     - unfold overwrite_root, find_root. cbn [List.find tid]. by rewrite bool_decide_eq_true_2.
-    - transitivity (reify (h_str h) (T r dx' csx)); [|reflexivity].
+    - transitivity (reify (h_str h) (T r dx' csx)).
+      2:{ rewrite !reify_unfold. unfold PatchDefs.unnamed. cbn [PatchDefs.set_key PatchDefs.set_ty Tree.n_ty rd_unnamed rd_type rd_vstr rd_vint rd_vdbl rd_key cstr_of].
+          by rewrite Z.ldiff_land. }
       apply reify_frame. intros b Hb. unfold patch_heap. cbn [h_str put_struct]. apply free_all_str_lookup.
-      apply Hna. cbn [str_blocks rd_vstr rd_key rd_no_key opt_list app] in Hb. exact Hb.
+      apply Hna. cbn [str_blocks rd_vstr rd_key rd_unnamed opt_list app] in Hb. exact Hb.
   Qed.
 
   (** the no-aliasing hypothesis holds when the replacement owns its strings (every tree the parser,
@@ -522,7 +571,7 @@ Section Patch.
   Proof.
     intros Hrx' Hoc b Hb. apply patch_kept_owned. unfold owned. rewrite patch_flat', owned_fl_cons, owned_fl_app.
     apply elem_of_app in Hb as [Hb|Hb].
-    - apply elem_of_app. left. right. cbn [fn_data fst snd]. rewrite owned_strs_no_key, Hrx'. apply elem_of_app. by left.
+    - apply elem_of_app. left. right. cbn [fn_data fst snd]. rewrite owned_strs_unnamed, Hrx'. apply elem_of_app. by left.
     - apply elem_of_app. right. apply elem_of_app. left.
       apply elem_of_list_bind in Hb as (c & Hbc & Hc). rewrite Forall_forall in Hoc.
       pose proof (str_blocks_owned c (Hoc c Hc) b Hbc) as Hin. apply elem_of_owned_fl in Hin as (e & He & Hbe).
@@ -535,21 +584,21 @@ End Patch.
 (** ** all of it, in one statement *)
 Theorem patch_root_overwrite_sim h F r x dr dx csr csx :
   WF h F -> find_root r F = Some (T r dr csr) -> find_root x F = Some (T x dx csx) -> r <> x ->
-  is_ref dr = false -> key_owned dr -> key_owned dx ->
+  is_ref dr = false -> key_owned dr ->
   let F' := overwrite_root r x dx csx F in
   let bs := patch_released dr csr x dx in
   let h' := patch_heap h r x dr dx csr csx in
   patch_root_overwrite (Some r) (Some x) h = Ret (tt, h') /\
   WF h' F' /\
   owned F ≡ₚ bs ++ owned F' /\ lib_live h' = lib_live h ∖ list_to_set bs /\ (NoLeak h F -> NoLeak h' F') /\
-  find_root r F' = Some (T r (rd_no_key dx) csx) /\
+  find_root r F' = Some (T r (rd_unnamed dx) csx) /\
   ((forall b, b ∈ opt_list (rd_vstr dx) ++ (csx ≫= str_blocks) -> b ∉ bs) ->
-   reify (h_str h') (T r (rd_no_key dx) csx) = PatchDefs.set_key (reify (h_str h) (T x dx csx)) None).
+   reify (h_str h') (T r (rd_unnamed dx) csx) = PatchDefs.unnamed (reify (h_str h) (T x dx csx))).
 Proof.
-  intros W Hr Hx Hrx Hnr Hko Hkx F' bs h'.
-  destruct (patch_root_overwrite_ledger h F r x dr dx csr csx W Hr Hx Hrx Hnr Hko Hkx) as (L1 & L2 & L3 & _).
-  split; [exact (patch_root_overwrite_run h F r x dr dx csr csx W Hr Hx Hrx Hnr Hko Hkx)|].
-  split; [exact (patch_root_overwrite_WF h F r x dr dx csr csx W Hr Hx Hrx Hnr Hko Hkx)|].
+  intros W Hr Hx Hrx Hnr Hko F' bs h'.
+  destruct (patch_root_overwrite_ledger h F r x dr dx csr csx W Hr Hx Hrx Hnr Hko) as (L1 & L2 & L3 & _).
+  split; [exact (patch_root_overwrite_run h F r x dr dx csr csx W Hr Hx Hrx Hnr Hko)|].
+  split; [exact (patch_root_overwrite_WF h F r x dr dx csr csx W Hr Hx Hrx Hnr Hko)|].
   split; [exact L1|]. split; [exact L2|]. split; [exact L3|].
   split.
   - unfold F', overwrite_root, find_root. cbn [List.find tid]. by rewrite bool_decide_eq_true_2.
@@ -715,3 +764,30 @@ Section Remove.
     - reflexivity.
   Qed.
 End Remove.
+
+(** * 5. a replacement with a CONSTANT key (the repaired code): the borrowed block is neither released nor
+      touched, and the new root carries neither the key nor the flag *)
+Theorem patch_const_replacement_ok h F r x dr dx csr csx k :
+  WF h F -> find_root r F = Some (T r dr csr) -> find_root x F = Some (T x dx csx) -> r <> x ->
+  is_ref dr = false -> key_owned dr ->
+  is_const dx = true -> rd_key dx = Some k -> k ∉ owned F ->
+  let h' := patch_heap h r x dr dx csr csx in
+  patch_root_overwrite (Some r) (Some x) h = Ret (tt, h') /\
+  WF h' (overwrite_root r x dx csx F) /\
+  patch_released dr csr x dx = ov_released dr csr ++ [x] /\ k ∉ patch_released dr csr x dx /\
+  (k ∈ h_live h' <-> k ∈ h_live h) /\ h_str h' !! k = h_str h !! k /\ h_own h' !! k = h_own h !! k /\
+  rd_key (rd_unnamed dx) = None /\ is_const (rd_unnamed dx) = false.
+Proof.
+  intros W Hr Hx Hrx Hnr Hko Hc Hk Hnot h'.
+  destruct (patch_root_overwrite_ledger h F r x dr dx csr csx W Hr Hx Hrx Hnr Hko) as (_ & _ & _ & _ & L5 & _ & _ & _ & L9).
+  assert (HkPR : k ∉ patch_released dr csr x dx).
+  { intros Hin. apply Hnot. by apply (patch_released_owned h F r x dr dx csr csx W Hr Hx Hrx Hnr Hko). }
+  split; [exact (patch_root_overwrite_run h F r x dr dx csr csx W Hr Hx Hrx Hnr Hko)|].
+  split; [exact (patch_root_overwrite_WF h F r x dr dx csr csx W Hr Hx Hrx Hnr Hko)|].
+  split; [unfold patch_released, old_key; by rewrite Hc|]. split; [exact HkPR|]. split_and!.
+  - unfold h', patch_heap. cbn [h_live put_struct]. rewrite free_all_live. tauto.
+  - unfold h'. rewrite L9. by rewrite decide_False.
+  - unfold h'. by rewrite L5.
+  - reflexivity.
+  - apply is_const_unnamed.
+Qed.
